@@ -223,8 +223,9 @@ CLAIMS = {
              "handle updated, nothing else changes), C15_fsk_ook (8 modes x FSK/OOK with the FSK/OOK page selected: chip exactly fskModeSpec — "
              "DIO routing, FIFO threshold, sequencer armed instead of RegOpMode for TX — handle updated), dio_unclaimed (unclaimed pins keep "
              "their routing, bit-level), C15_unknown_modulation (rejected before any request), enum_modes_are_datasheet (regenerated enumerators). "
-             "'Handle unchanged when a transfer fails' is decided by the script family that injects a fault at each transfer index and by the "
-             "trace correspondence. Open known finding: FSK/OOK RX/TX entered directly from the LoRa register page (see known_findings.json).",
+             "C15_handle_on_success / C15_handle_after (whenever the call reports success, whatever the chip answers, the handle records the new mode "
+             "and modulation and - when the call crosses between the LoRa and the FSK/OOK modem - forgets the packet in progress; nothing else changes), "
+             "C15_modem_switch_forgets_packet, C15_handle_unchanged_on_failure (any failing transfer: handle exactly as before). Open known finding: FSK/OOK RX/TX entered directly from the LoRa register page (see known_findings.json).",
         technique="Lean 4 weakest-precondition proof over 24 mode/modulation cases + fault-position enumeration",
         design="7 C15"),
     'C16': dict(
@@ -257,13 +258,22 @@ CLAIMS = {
         technique="Lean 4 product-system theorem (induction on interleavings) + symbol-table check + interleaved-vs-solo runs of the real driver on two chips",
         design="7 C18"),
     'C19': dict(
-        text="Proof for the driver side, correspondence-only for the backends. Theorem Sx.C19_driver_requests_valid: for either build, any history "
+        text="Proof for both halves. Driver: theorem Sx.C19_driver_requests_valid: for either build, any history "
              "(valid arguments, any chip, any schedule, any failing transfers) every transfer put on the bus carries 1..4 bytes (register calls) "
              "or at most 2047 bytes (buffer calls) and stays inside 0x00..0x70; it follows from contract_api, a structural theorem over the model "
              "of all 57 API functions for every handle and every answer of chip and bus. The harness' contract monitor checks the same on every "
-             "request of the real driver. The Linux/ESP-IDF backend half is not covered by a theorem (see DESIGN.md section 11).",
-        technique="Lean 4 structural theorem over all driver programs + contract monitor in the simulator",
-        design="7 C19"),
+             "request of the real driver. Backends: Sx/Model/Backend.lean models the eight functions of src/sx127x_linux_spi.c and "
+             "src/sx127x_esp_spi.c (little-endian object representations, ntohl, the shift loop, the length guards and array sizes regenerated "
+             "from the sources); theorems C19_backend_read_registers / write_register / read_buffer / write_buffer (every address 0..0x7f, every "
+             "length in the contract, every answer of the chip, either backend: exactly one transaction = address byte with the write bit only for "
+             "writes, then the data in order; reads most significant byte first / in wire order), C19_backend_failure_reported (a failing transaction "
+             "is never reported as success, at most one transaction per call), C19_backend_lengths_guarded (out-of-contract lengths refused without a "
+             "transaction; no transaction longer than the local arrays). The tie for the backends: the real files compiled from the working tree "
+             "against an interposed ioctl / a stub spi_device_polling_transmit run ~22 000 requests (all addresses, lengths 0..5 and 0,1,2,64,2047,2048, "
+             "success and failure) and every result line (return code, bytes of every transaction attempted, stored word/buffer) is compared with the "
+             "model's. Modelled, not verified: the kernel spidev driver and ESP-IDF (their call is what is checked).",
+        technique="Lean 4 structural theorem over all driver programs + Lean 4 model and theorems for the two SPI backends + request-by-request correspondence with the real backends",
+        design="7 C19, 13.19"),
     'C20': dict(
         text="Proof for the dump and for the tool's argument parser; testing for the decoders. C20_dump_is_one_raw_burst (the program of "
              "sx127x_dump_registers is exactly one raw, uncached burst read of 0x70 bytes from address 1 — no FIFO access), C20_dump_is_the_chip "
